@@ -79,6 +79,97 @@ theorem C18_compose_above_max_refused (lm : Nat → Maxima) (e : AExpr) (t : Boo
   · have h := C18_compose_node_bound lm e t r ans hs hw harr hh hok
     omega
 
+/-- served leaf calls respect the leaf's array figure too -/
+def LeafHonestA (lm : Nat → Maxima) (c : LeafCall) : Prop :=
+  c.ok = true → (c.req.arr = false → c.req.size ≤ (lm c.leaf).node) ∧ (c.req.arr = true → c.req.bytes ≤ (lm c.leaf).array)
+
+theorem maxima_node_le_array (lm : Nat → Maxima) (h : ∀ i, (lm i).node ≤ (lm i).array) (e : AExpr) :
+    (maxima lm e).node ≤ (maxima lm e).array := by
+  induction e with
+  | leaf i ha => simp only [maxima]; split <;> simp [h i]
+  | aligned m a ih => exact ih
+  | tracked a ih => exact ih
+  | fallback d f ihd ihf => simp only [maxima, Maxima.sup]; omega
+  | segregator m s f _ ihf => exact ihf
+  | storage a ih => exact ih
+  | anyRef a ih => exact ih
+
+/-- **Array requests**: what a composition without a segregator serves is at most `max_array_size()` bytes (array request) or
+`max_node_size()` bytes (node request), provided no leaf reports a smaller array figure than node figure (the type-erased
+reference sends an array of one element down the node path). -/
+theorem C18_compose_array_bound (lm : Nat → Maxima) (hna : ∀ i, (lm i).node ≤ (lm i).array) (e : AExpr) :
+    ∀ (t : Bool) (r : Req) (ans : List Bool), SegFree e → Req.WF r →
+      (∀ c ∈ (route t e r ans).calls, LeafHonestA lm c) → (route t e r ans).ok = true →
+      (r.arr = false → r.size ≤ (maxima lm e).node) ∧ (r.arr = true → r.bytes ≤ (maxima lm e).array) := by
+  induction e with
+  | leaf i ha =>
+    intro t r ans _ _ hh hok
+    simp only [route] at hh hok
+    have h := hh _ (List.mem_singleton.mpr rfl) hok
+    simp only [maxima]
+    cases harr : r.arr
+    · have hl : leafReq ha r = r := by simp [leafReq, harr]
+      rw [hl] at h
+      exact ⟨fun _ => h.1 harr, fun hc => by simp at hc⟩
+    · refine ⟨fun hc => by simp at hc, fun _ => ?_⟩
+      cases ha
+      · have hl : leafReq false r = Req.node (mul64 r.count r.size) r.align := by simp [leafReq, harr]
+        rw [hl] at h
+        have := h.1 rfl
+        simpa [Req.bytes, harr, Req.node] using this
+      · have hl : leafReq true r = r := by simp [leafReq]
+        rw [hl] at h
+        simpa using h.2 harr
+  | aligned m a ih =>
+    intro t r ans hs hw hh hok
+    simp only [route] at hh hok
+    have h := ih t { r with align := max m r.align } ans hs (fun h => hw h) hh hok
+    simpa [maxima, Req.bytes] using h
+  | tracked a ih =>
+    intro t r ans hs hw hh hok
+    simp only [route] at hh hok
+    exact ih t r ans hs hw hh hok
+  | fallback d f ihd ihf =>
+    intro t r ans hs hw hh hok
+    simp only [route] at hh hok
+    simp only [maxima, Maxima.sup]
+    by_cases hx : (route false d r ans).ok = true
+    · simp only [hx, ↓reduceIte] at hh hok
+      have h := ihd false r ans hs.1 hw hh hx
+      exact ⟨fun hc => Nat.le_trans (h.1 hc) (Nat.le_max_left _ _), fun hc => Nat.le_trans (h.2 hc) (Nat.le_max_left _ _)⟩
+    · simp only [hx] at hh hok
+      have h := ihf t r (route false d r ans).rest hs.2 hw
+        (fun c hc => hh c (List.mem_append.mpr (Or.inr hc))) hok
+      exact ⟨fun hc => Nat.le_trans (h.1 hc) (Nat.le_max_right _ _), fun hc => Nat.le_trans (h.2 hc) (Nat.le_max_right _ _)⟩
+  | segregator m s f _ _ => intro _ _ _ hs; exact absurd hs (by simp [SegFree])
+  | storage a ih =>
+    intro t r ans hs hw hh hok
+    simp only [route] at hh hok
+    exact ih t r ans hs hw hh hok
+  | anyRef a ih =>
+    intro t r ans hs hw hh hok
+    simp only [route] at hh hok
+    simp only [maxima]
+    by_cases hc : r.count = 1
+    · have hr : anyReq r = Req.node r.size r.align := by simp [anyReq, hc]
+      rw [hr] at hh hok
+      have h := (ih t (Req.node r.size r.align) ans hs (fun _ => rfl) hh hok).1 rfl
+      have hle := maxima_node_le_array lm hna a
+      refine ⟨fun _ => h, fun harr => ?_⟩
+      have hb : r.bytes ≤ r.size := by
+        simp only [Req.bytes, harr, hc, mul64, ↓reduceIte, BitVec.toNat_mul, BitVec.toNat_ofNat]
+        exact Nat.le_trans (Nat.mod_le _ _) (by simp [Nat.mod_le])
+      exact Nat.le_trans hb (Nat.le_trans h hle)
+    · have harr : r.arr = true := by
+        cases hh' : r.arr
+        · exact absurd (hw hh') hc
+        · rfl
+      have hr : anyReq r = Req.array r.count r.size r.align := by simp [anyReq, hc]
+      rw [hr] at hh hok
+      have h := (ih t (Req.array r.count r.size r.align) ans hs (fun hc' => by simp [Req.array] at hc') hh hok).2 rfl
+      refine ⟨fun hc' => by simp [harr] at hc', fun _ => ?_⟩
+      simpa [Req.bytes, Req.array, harr] using h
+
 /-- the reported figures are attained by a part: nothing larger than every leaf's figure is ever reported -/
 theorem maxima_node_le_leaves (lm : Nat → Maxima) (B : Nat) (hB : ∀ i, (lm i).node ≤ B) (e : AExpr) : (maxima lm e).node ≤ B := by
   induction e with
